@@ -1220,7 +1220,23 @@ class FSModel:
                     out.pop()
                 continue
             out.append(part)
-        return '/' + '/'.join(out)
+        return self.follow('/' + '/'.join(out))
+
+    def follow(self, path):
+        """replace directory symlinks (`['link', target]` nodes) on the way by their targets; the lexical treatment of `..` before this
+        step is the pinned code's own (path::absolute is lexical), a `..` behind a link is outside the model"""
+        for _ in range(8):
+            parts = [x for x in path.split('/') if x]
+            cur = ''
+            for i, part in enumerate(parts):
+                cur += '/' + part
+                n = self.nodes.get(cur)
+                if n is not None and n[0] == 'link':
+                    path = n[1].rstrip('/') + ''.join('/' + q for q in parts[i + 1:])
+                    break
+            else:
+                return path
+        raise Unsupported('symlink loop')
 
     @staticmethod
     def parent(path):
@@ -1252,7 +1268,7 @@ class FSModel:
         return None
 
     def snapshot(self):
-        return {k: (v[0], ''.join(chr(c) if isinstance(c, int) else '?' for c in v[1]) if v[0] == 'file' else None)
+        return {k: (v[0], ''.join(chr(c) if isinstance(c, int) else '?' for c in v[1]) if v[0] == 'file' else (v[1] if v[0] == 'link' else None))
                 for k, v in sorted(self.nodes.items())}
 
 
@@ -3235,3 +3251,41 @@ def _(m, callee, args):
         out += cs[start:a] + to
         start = b_
     return RStr(out + cs[start:])
+
+
+@model(r' as Iterator>::map_while::<')
+def _(m, callee, args):
+    out = []
+    while True:
+        x = it_next(m, args[0])
+        if x is None:
+            break
+        r = m.call_closure(args[1], [x])
+        if not disc_is(m, r, 1):
+            break
+        out.append(r.fields[0])
+    return PyIter('list', items=out, pos=0)
+
+
+@model(r' as Iterator>::scan::<| as Iterator>::inspect::<')
+def _(m, callee, args):
+    if 'inspect' in callee:
+        items = drain(m, args[0])
+        for x in items:
+            m.call_closure(args[1], [ValRef(x)])
+        return PyIter('list', items=items, pos=0)
+    raise Unsupported('Iterator::scan')
+
+
+@model(r'^Path::canonicalize$|^(std::fs::)?canonicalize::<')
+def _(m, callee, args):
+    fs = _fs(m)
+    p = fs.resolve(m, args[0])
+    if p not in fs.nodes:
+        return ERR(io_err('NotFound'))
+    return OK(RStr([ord(c) for c in p]))
+
+
+@model(r'^Path::(read_link|symlink_metadata)$|^Path::is_symlink$')
+def _(m, callee, args):
+    raise Unsupported('symlink inspection')
